@@ -55,7 +55,7 @@ var space = engine.Space{
 	engine.D("iat", "-10", "absent", "-7200", "-3602", "-3601", "-3600", "-3599", "-3598", "-1", "0", "1", "2", "5", "6", "7", "3600"),
 	engine.D("auth_time", "-30", "absent", "-7200", "-602", "-601", "-600", "-599", "-598", "0", "3600"),
 	engine.D("nonce", "absent", "n1", "n2"),
-	engine.D("acr", "absent", "a1", "zz"),
+	engine.D("acr", "absent", "a1", "zz", "a2"),
 	// at_hash: L/F/O<bits> = left half / full digest of SHA-<bits>(at1) / left half of SHA-<bits>(at2),
 	// R-jwa = RIGHT half of the JWA hash of at1, junk = a constant. Which of them is "right"
 	// depends on the signing algorithm and is decided by the oracle, not by the alphabet.
@@ -70,7 +70,9 @@ var space = engine.Space{
 	engine.D("phase", "250ms", "750ms"),
 	engine.D("nonceHook", "empty", "nil", "n1"),
 	engine.D("acrV", "nil", "a1a2"),
-	engine.D("algs", "default", "token-alg", "all", "all-but-token"),
+	// allowed list: library default (RS256, ES256, PS256), exactly the token's algorithm, all ten,
+	// all ten except the token's, one single other algorithm (RS384, or RS512 for an RS384 token)
+	engine.D("algs", "default", "token-alg", "all", "all-but-token", "one-other"),
 	// entry point and claims container: VerifyTokens[*IDTokenClaims], VerifyIDToken[*IDTokenClaims],
 	// VerifyIDToken[*TokenClaims], VerifyIDToken[*AccessTokenClaims] (the three oidc.Claims types of pkg/oidc/token.go)
 	engine.D("mode", "tokens", "idonly", "idonly-base", "idonly-access"),
@@ -97,7 +99,7 @@ var (
 
 const sigCacheMax = 300_000
 
-func init() { sigCache.Store(new(sync.Map)) }
+func init() { sigCache.Store(new(sync.Map)); verCache.Store(new(sync.Map)) }
 
 func signKey(alg string, wrong bool) *keys.Key {
 	switch alg {
@@ -162,11 +164,44 @@ func (staticKeySet) VerifySignature(ctx context.Context, jws *jose.JSONWebSignat
 		return nil, errors.New("need exactly one signature")
 	}
 	alg := jws.Signatures[0].Header.Algorithm
-	if slices.Contains(allAlgs, alg) {
+	if !slices.Contains(allAlgs, alg) {
+		return nil, errors.New("no key")
+	}
+	// The same token is verified under many verifier configurations: memoise the
+	// verdict of go-jose's Verify per exact compact serialisation (pure function of
+	// the token text and the fixed public key; go-jose primitives are trusted base).
+	compact, err := jws.CompactSerialize()
+	if err != nil {
 		return jws.Verify(signKey(alg, false).PubForJose())
 	}
-	return nil, errors.New("no key")
+	k := sha256.Sum256([]byte(compact))
+	m := verCache.Load()
+	if v, ok := m.Load(k); ok {
+		r := v.(verResult)
+		return slices.Clone(r.payload), r.err
+	}
+	payload, err := jws.Verify(signKey(alg, false).PubForJose())
+	m.Store(k, verResult{slices.Clone(payload), err})
+	if verCacheN.Add(1) > sigCacheMax {
+		sigCacheMu.Lock()
+		if verCacheN.Load() > sigCacheMax {
+			verCache.Store(new(sync.Map))
+			verCacheN.Store(0)
+		}
+		sigCacheMu.Unlock()
+	}
+	return payload, err
 }
+
+type verResult struct {
+	payload []byte
+	err     error
+}
+
+var (
+	verCache  atomic.Pointer[sync.Map]
+	verCacheN atomic.Int64
+)
 
 // ---------------------------------------------------------------------------
 // reference: left-half hash, written against the spec, not the library
@@ -468,7 +503,7 @@ func build(v engine.Vec) (c caseT, want tri, rule string) {
 	}
 	if g("acrV") == "a1a2" {
 		opts = append(opts, rp.WithACRVerifier(oidc.DefaultACRVerifier([]string{"a1", "a2"})))
-		if g("acr") != "a1" {
+		if a := g("acr"); a != "a1" && a != "a2" { // every member of the configured list is allowed
 			reject("acr-not-allowed")
 		}
 	}
@@ -483,6 +518,13 @@ func build(v engine.Vec) (c caseT, want tri, rule string) {
 	case "all-but-token":
 		allowed = slices.DeleteFunc(slices.Clone(allAlgs), func(a string) bool { return a == c.alg })
 		opts = append(opts, rp.WithSupportedSigningAlgorithms(allowed...))
+	case "one-other":
+		o := "RS384"
+		if c.alg == o {
+			o = "RS512"
+		}
+		allowed = []string{o}
+		opts = append(opts, rp.WithSupportedSigningAlgorithms(o))
 	}
 	if !slices.Contains(allowed, c.alg) {
 		reject("alg-not-allowed")
